@@ -45,6 +45,7 @@ def gen_run(rng, solver=None, stop=None, **over):
     return op
 
 
+@C.tolerant
 def sweep_ops(rng, exe, n_problems, solver='panoc'):
     """Exhaustive stop injection: for fixed problems, `stop()` at every event index."""
     ops = []
